@@ -81,9 +81,15 @@ def mutants(s, name, rnd, quick):
             yield "huge-number", s[:m.start()] + "9" * 12 + s[m.end():]
             yield "huge-number", s[:m.start()] + "-" + m.group() + s[m.end():]
             n = int(m.group())
+            for big in (2 ** 31 - 1, 2 ** 31, 2 ** 32 - 1, 2 ** 32):           # around what C integer types can hold
+                yield "huge-number", s[:m.start()] + str(big) + s[m.end():]
             for alt in {n - 1, n + 1, n // 10, 1, 0} - {n}:
                 if alt >= 0:
                     yield "other-number", s[:m.start()] + str(alt) + s[m.end():]
+    # name=value pairs: the name or the value blanked
+    for m in re.finditer(r"([A-Za-z][A-Za-z0-9-]*)=([^,$|}]+)", s):
+        yield "empty-name", s[:m.start(1)] + s[m.end(1):]
+        yield "empty-value", s[:m.start(2)] + s[m.end(2):]
     sw = swapcase_hex(s)
     if sw != s:
         yield "case-hex", sw
@@ -211,6 +217,25 @@ def leniency(mutant, original):
     return f"{tag}:{cat(old)}>{cat(new)}{where}" if tag == "replace" else f"{tag}:{cat(new or old)}"
 
 
+def parsed_settings(h, text):
+    """the settings the library itself reads from a string (empty when it refuses the string) - through parsehash of the hasher,
+    of the hasher it wraps, or the parsed object"""
+    w = getattr(h, "wrapped", h)
+    for attempt in (lambda: h.parsehash(text), lambda: w.parsehash(h._unwrap_hash(text if isinstance(text, str) else text.decode("latin-1"))),
+                    lambda: vars_of(w.from_string(h._unwrap_hash(text) if hasattr(h, "wrapped") else text))):
+        try:
+            d = attempt()
+            if isinstance(d, dict) and d:
+                return d
+        except Exception:
+            continue
+    return {}
+
+
+def vars_of(o):
+    return {k: getattr(o, k) for k in ("rounds", "block_size", "parallelism") if getattr(o, k, None) is not None}
+
+
 def outcome(fn, *a, **k):
     try:
         return str(bool(fn(*a, **k))) if fn(*a, **k) in (True, False) else "Other"
@@ -275,6 +300,8 @@ def run(chk):
     restore = []
     skipped_expensive = [0]
     probed = []
+    probe_seen = set()
+    probe_later = []          # valid-looking strings with an enormous cost: verified in a child process under a hard time limit
     for name in names:
         if name in skip:
             continue
@@ -294,10 +321,7 @@ def run(chk):
         probed.append((name, h, vh))
         for s, ckw in vh:
             padpos = len(s) - PADREPAIR_WRAPPED.get(name, 31)
-            try:
-                orig_rounds = h.parsehash(s).get("rounds")
-            except Exception:
-                orig_rounds = None
+            orig_rounds = parsed_settings(h, s).get("rounds")
             log2 = getattr(getattr(h, "wrapped", h), "rounds_cost", "linear") == "log2"
             seen = set()
             for kind, m in mutants(s, name, rnd, quick):
@@ -321,15 +345,15 @@ def run(chk):
                         calls += [("ctx_verify", lambda: ctxobj.verify(PW, mm, **ckw)), ("ctx_needs_update", lambda: ctxobj.needs_update(mm))]
                     # a mutant that is a VALID string with a much higher cost is not malformed: computing it is legitimate (and slow), skip the computation
                     expensive = False
-                    try:
-                        ph = h.parsehash(mm)
-                        r1 = ph.get("rounds")
-                        if isinstance(r1, int) and isinstance(orig_rounds, int):
-                            expensive = r1 > orig_rounds + 3 if log2 else r1 > max(orig_rounds * 20, 20000)
-                        if name == "scrypt" and (ph.get("block_size", 8) > 64 or ph.get("parallelism", 1) > 16):
-                            expensive = True
-                    except Exception:
-                        pass
+                    ph = parsed_settings(h, mm)
+                    r1 = ph.get("rounds")
+                    if isinstance(r1, int) and isinstance(orig_rounds, int):
+                        expensive = r1 > orig_rounds + 3 if log2 else r1 > max(orig_rounds * 20, 20000)
+                    if name == "scrypt" and (ph.get("block_size", 8) > 64 or ph.get("parallelism", 1) > 16):
+                        expensive = True
+                    if expensive and form == "str" and kind == "huge-number" and str(2 ** 31) in mm and (name, "2^31") not in probe_seen:
+                        probe_seen.add((name, "2^31"))          # one per hasher: the first value a C long cannot hold
+                        probe_later.append((name, mm, vkw))
                     for cname, fn in calls:
                         if expensive and cname in ("verify", "ctx_verify"):
                             skipped_expensive[0] += 1
@@ -345,6 +369,28 @@ def run(chk):
                         if out == "True" and cname in ("verify", "ctx_verify"):
                             events.append({"fam": fam, "hasher": name, "kind": kind, "call": cname, "outcome": out, "padpos": padpos,
                                            "mutant": [ord(c) for c in m], "original": [ord(c) for c in s]})
+    # enormous costs: the computation may legitimately take for ever (then the child is killed and nothing is concluded), but it must
+    # not end in an internal error
+    if probe_later:
+        import subprocess
+        import sys as _sys
+        child = ("import sys, json, warnings, logging\nwarnings.simplefilter('ignore'); logging.disable(logging.WARNING)\nsys.path.insert(0, %r)\n"
+                 "from passlib import registry\nname, m, kw = json.loads(sys.stdin.read())\n"
+                 "try:\n    r = registry.get_crypt_handler(name).verify(%r, m, **kw); print('answer', r)\n"
+                 "except (ValueError, TypeError) as e:\n    print('clean', type(e).__name__)\n"
+                 "except BaseException as e:\n    print('internal', type(e).__name__, str(e)[:80])\n") % (chk.repo, PW)
+        for name, m, vkw in probe_later:
+            try:
+                p = subprocess.run([_sys.executable, "-c", child], input=json.dumps([name, m, vkw]), capture_output=True, text=True, timeout=4)
+                line = (p.stdout.strip().splitlines() or ["?"])[-1]
+            except subprocess.TimeoutExpired:
+                line = "timeout"
+            total += 1
+            chk.action("huge-cost-probe")
+            chk.count((name, "huge-cost", line.split()[0]))
+            if line.startswith("internal") or (line.startswith("answer") and "True" in line):
+                chk.violation(f"{name}:verify:huge-cost:{line.split()[1] if len(line.split()) > 1 else line}",
+                              f"{name}.verify on a string with an enormous cost field ended with: {line}", {"hasher": name, "mutant": m})
     # deterministic leniency probes (every hasher of the tier, every valid hash)
     found = {}                 # (hasher, mechanism) -> witness
     for name, h, hashes in probed:
